@@ -62,6 +62,10 @@ func at(ns int64) time.Time { return base.Add(time.Duration(ns)) }
 type ent struct {
 	v int
 	t int64
+	// wasExpired: at some op since its insertion now-t >= ttl held while it
+	// stayed in the list (tainted mode only: behind a younger front an entry
+	// may or may not survive its own expiry)
+	wasExpired bool
 }
 
 // refModel keeps, in insertion order, every entry that can still be held
@@ -80,6 +84,7 @@ type refModel struct {
 	lastOp   []int  // index of the last op on the value
 
 	marksSet, marksCleared int64
+	eldestDiscards         int64 // certain discards by the eldest-entry rule in tainted mode
 }
 
 func (m *refModel) reset(ttl int64) {
@@ -190,6 +195,26 @@ func (m *refModel) step(now int64, v int) verdict {
 			}
 			m.ents, m.tainted = m.ents[:0], false
 		case m.tainted:
+			// The list is in insertion order and everything before its first
+			// entry is certainly gone, so that entry is the eldest under every
+			// reading: it goes when it expires, and a clock that steps below its
+			// timestamp — provided it never outlived its ttl, i.e. is certainly
+			// still held — is a step backwards past the eldest entry.
+			for len(m.ents) > 0 && now-m.ents[0].t >= m.ttl {
+				m.ents = m.ents[1:]
+				m.marksCleared++
+			}
+			if len(m.ents) > 0 && !m.ents[0].wasExpired && now < m.ents[0].t {
+				vd.glob = 'D'
+				m.marksCleared += int64(len(m.ents))
+				m.ents, m.tainted = m.ents[:0], false
+				m.eldestDiscards++
+			}
+			for i := range m.ents {
+				if now-m.ents[i].t >= m.ttl {
+					m.ents[i].wasExpired = true
+				}
+			}
 		case now < m.prevNow: // backwards, but not below the oldest entry
 			vd.glob = 'T'
 			m.tainted = true
@@ -240,7 +265,7 @@ func (m *refModel) observe(now int64, v int, seen bool) {
 		if i := m.find(v); i >= 0 { // an uncertain entry turned out to be gone
 			m.ents = append(m.ents[:i], m.ents[i+1:]...)
 		}
-		m.ents = append(m.ents, ent{v, now})
+		m.ents = append(m.ents, ent{v: v, t: now})
 		if m.tainted {
 			m.marksSet++
 		}
@@ -741,7 +766,7 @@ func prngHistories(r *mon.Run) {
 					prev := m.prevNow
 					pick := func() ent {
 						if len(m.ents) == 0 {
-							return ent{0, prev}
+							return ent{v: 0, t: prev}
 						}
 						return m.ents[rng.IntN(len(m.ents))]
 					}
@@ -870,7 +895,7 @@ func (m *capModel) step(now int64, v int) (seen bool, cause uint8) {
 	if m.size() >= m.cap {
 		m.pop(goneEvicted)
 	}
-	m.q = append(m.q, ent{v, now})
+	m.q = append(m.q, ent{v: v, t: now})
 	m.state[v] = held
 	return false, cause
 }
